@@ -89,6 +89,22 @@ func c01Oracle(tr *sigTrace) Verdict {
 		if !sigDescEq(s.Now[5], wantR) {
 			return Fail("remote-getter-not-pending-else-current", s.describe(i)+fmt.Sprintf(": RemoteDescription %v, pending %v, current %v", s.Now[5], s.Now[2], s.Now[3]))
 		}
+		// CreateOffer / CreateAnswer (accepted or refused) and Close never move the
+		// descriptions, and only Close moves the state (to closed, without an event)
+		if !s.isSet() {
+			moved := s.Before != s.After
+			if s.Op.K == sigClose {
+				moved = s.After != ssClosed
+			}
+			if moved || len(s.Events) > 0 {
+				return Fail("non-set-call-moved-signaling-state", s.describe(i)+fmt.Sprintf(": events %v", s.Events))
+			}
+			for k := 0; k < 4; k++ {
+				if !sigDescEq(s.Prev[k], s.Now[k]) {
+					return Fail("non-set-call-changed-descriptions", s.describe(i))
+				}
+			}
+		}
 		if s.isSet() && s.Err != "ok" && !s.unchanged() {
 			// a rejected call that changed something is C03's subject; the exchange it
 			// belongs to is not judged here
@@ -157,6 +173,15 @@ func c01HistRun(c sigCase) (V, Verdict) {
 	}
 	sigNote(c, tr, &v)
 	return tr.V(), v
+}
+
+// c01RetriesOps ends in a CreateOffer that returns errExcessiveRetries; see c01Corpus.
+func c01RetriesOps() []sigOp {
+	return []sigOp{{K: sigCreateOffer, PC: 1, Ref: -1}, {K: sigSetLocal, PC: 1, Ty: tyOffer, Ref: 0},
+		{K: sigSetRemote, PC: 1, Ty: tyAnswer, Ref: 0}, {K: sigCreateOffer, PC: 0, Ref: -1},
+		{K: sigSetRemote, PC: 1, Ty: tyOffer, Ref: 3}, {K: sigCreateOffer, PC: 1, Ref: -1},
+		{K: sigSetRemote, PC: 0, Ty: tyOffer, Ref: 5}, {K: sigSetLocal, PC: 0, Ty: tyAnswer, Ref: -1},
+		{K: sigCreateOffer, PC: 0, Ref: -1}}
 }
 
 // exchange appends a full offer/answer exchange offered by pc a
@@ -235,6 +260,9 @@ func sigGenHistory(r *Rand, maxLen int, muts []int, single bool) sigCase {
 			if isSet && r.Chance(1, 10) {
 				ops = append(ops, o) // repeated call
 			}
+			if r.Chance(1, 40) { // Close anywhere, the history goes on
+				ops = append(ops, sigOp{K: sigClose, PC: r.Intn(2), Ref: -1})
+			}
 		}
 	}
 	if len(ops) > maxLen {
@@ -244,6 +272,11 @@ func sigGenHistory(r *Rand, maxLen int, muts []int, single bool) sigCase {
 		for i := range ops {
 			ops[i].PC = 0
 		}
+	}
+	if len(muts) > 0 && r.Chance(1, 12) && len(ops) > 1 {
+		// a PeerConnection whose ICE agent cannot be created (C03: Gather /
+		// AddRemoteCandidate after the transition); its create calls are refused
+		ops[0] = sigOp{K: sigDeclare, PC: r.Intn(2), Ref: -1, Mut: traitNoAgent}
 	}
 	c.Ops = ops
 	return c
@@ -265,6 +298,20 @@ func c01Corpus() []sigCase {
 		{Ops: []sigOp{{K: sigSetLocal, Ty: tyOffer, Ref: -1}, {K: sigSetLocal, Ty: 0, Ref: -1},
 			{K: sigCreateOffer, PC: 1}, {K: sigSetRemote, Ty: 5, Ref: 2}, {K: sigSetRemote, Ty: tyAnswer, Ref: 2},
 			{K: sigClose}, {K: sigSetRemote, Ty: tyOffer, Ref: 2}, {K: sigCreateOffer}}},
+		// Close in the middle of an exchange, on each side, then every kind of call
+		{Ops: []sigOp{{K: sigCreateOffer}, {K: sigSetLocal, Ty: tyOffer, Ref: 0}, {K: sigSetRemote, PC: 1, Ty: tyOffer, Ref: 0},
+			{K: sigClose, PC: 1}, {K: sigCreateAnswer, PC: 1}, {K: sigSetLocal, PC: 1, Ty: tyAnswer, Ref: -1},
+			{K: sigSetRemote, PC: 1, Ty: tyOffer, Ref: 0}, {K: sigClose, PC: 1},
+			{K: sigClose, PC: 0}, {K: sigSetRemote, PC: 0, Ty: tyAnswer, Ref: 0}, {K: sigCreateOffer, PC: 0},
+			{K: sigSetLocal, PC: 0, Ty: tyRollback, Ref: -1}}},
+		// CreateOffer refused inside SDP generation ("excessive retries in CreateOffer", found by
+		// the seeded generator and shrunk): pc1 answers itself, takes pc0's offer and offers back
+		// from have-remote-offer; pc0 applies that offer and completes with an empty answer (JSEP
+		// 5.4 substitutes the empty last answer), so its local description never carries the mids
+		// SetRemoteDescription gave its transceivers and CreateOffer regenerates 128 times. The
+		// refusal leaves state and descriptions alone; the calls after it behave as the model says.
+		{Cfg: [2]int{1, 2}, Ops: append(c01RetriesOps(), sigOp{K: sigSetLocal, PC: 0, Ty: tyOffer, Ref: 8},
+			sigOp{K: sigSetLocal, PC: 0, Ty: tyOffer, Ref: -1}, sigOp{K: sigClose, PC: 0}, sigOp{K: sigCreateOffer, PC: 0})},
 	}
 }
 
